@@ -356,6 +356,7 @@ func parsePossibilityArchs(input *input, possi *Possibility) error {
 	input.Next() /* Assert ch == '[' */
 
 	for {
+		eatWhitespace(input)
 		peek := input.Peek()
 		switch peek {
 		case 0:
@@ -419,6 +420,7 @@ func parsePossibilityStageSet(input *input, possi *Possibility) error {
 
 	stageSet := StageSet{}
 	for {
+		eatWhitespace(input)
 		peek := input.Peek()
 		switch peek {
 		case 0:
